@@ -55,6 +55,8 @@ def compare(case, run):
             out.append("plugin statuses %s, specification says %s" % (run["plugins"], e["plugins"]))
         if not run["sorted"]:
             out.append("result not in the documented sorted order")
+        if run.get("findings", 7) != 7:
+            out.append("%d of the detector's 7 findings reported" % run["findings"])
         if run["dup_status"]:
             out.append("a plugin has more than one status entry")
         if run["standalone"] != (0 if run.get("no_standalone") else 1) or run["detector"] != 1:
